@@ -204,12 +204,16 @@ func (p List) Struct(i int) Struct {
 	if !ok {
 		return Struct{}
 	}
+	depthLimit := p.depthLimit
+	if depthLimit > 0 {
+		depthLimit--
+	}
 	return Struct{
 		seg:        p.seg,
 		off:        addr,
 		size:       p.size,
 		flags:      isListMember,
-		depthLimit: p.depthLimit - 1,
+		depthLimit: depthLimit,
 	}
 }
 
